@@ -341,9 +341,11 @@ def handle : Handler := fun input impl =>
     let meant : Option V := match denoted docFns kv with
       | none => some d
       | some r => r
-    let coded : Option V := match denoted fns kv with
-      | none => some d
-      | some r => r
+    let coded : Option V :=
+      if fns == docFns then meant   -- the usual case: evaluate once
+      else match denoted fns kv with
+        | none => some d
+        | some r => r
     if mal == "3" then
       -- a file with a `locals` block / expression that does not evaluate: it must be refused as a whole
       match meant with
